@@ -1,5 +1,23 @@
 #!/bin/bash
-# tools/runmutants.sh [pattern]  -- runs every mutants/<Cxx>-*.diff against check Cxx (quick tier), 6 in parallel.
+# tools/runmutants.sh [pattern] [--record]  -- runs every mutants/<Cxx>-*.diff against check Cxx (quick tier), 6 in parallel.
+# With --record the outcome table is written to mutants/RESULTS.json.
 cd "$(dirname "$0")/.."
-pat="${1:-}"
-ls mutants/*.diff | grep "$pat" | xargs -P 6 -I{} bash -c 'f={}; c=$(basename $f | cut -d- -f1); out=$(MUT_LINES=3 tools/mutant.sh $f $c 2>&1 | head -4 | tr "\n" " " | cut -c1-260); echo "$(basename $f .diff): $out"'
+pat=""; rec=0
+for a in "$@"; do if [ "$a" = "--record" ]; then rec=1; else pat="$a"; fi; done
+tmp=$(mktemp /tmp/mutres-XXXXXX)
+ls mutants/*.diff | grep "$pat" | xargs -P 6 -I{} bash -c 'f={}; c=$(basename $f | cut -d- -f1); out=$(MUT_LINES=3 tools/mutant.sh $f $c 2>&1 | head -4 | tr "\n" " " | cut -c1-260); echo "$(basename $f .diff): $out"' | tee $tmp
+if [ $rec = 1 ]; then
+python3 - "$tmp" <<'PY'
+import json, re, sys
+res = {}
+for line in open(sys.argv[1]):
+    name, _, rest = line.partition(': ')
+    m = re.search(r'exit=(\d+)', rest)
+    b = re.search(r'bucket: (\S+)', rest)
+    res[name] = {'detected': bool(m and m.group(1) == '1'), 'exit': int(m.group(1)) if m else None, 'first_bucket': b.group(1) if b else None}
+json.dump({'tier': 'quick', 'results': res, 'detected': sum(1 for v in res.values() if v['detected']), 'total': len(res)},
+          open('mutants/RESULTS.json', 'w'), indent=1, sort_keys=True)
+print('recorded', sum(1 for v in res.values() if v['detected']), 'of', len(res))
+PY
+fi
+rm -f $tmp
